@@ -1969,6 +1969,8 @@ func (vm *VM) execAsync() error {
 		builtinsCopy[k] = v
 	}
 
+	stepLimit := vm.maxSteps
+
 	go func() {
 		defer close(future.Done)
 		defer func() {
@@ -1983,6 +1985,8 @@ func (vm *VM) execAsync() error {
 		asyncVM.locals = localsCopy
 		asyncVM.globals = globalsCopy
 		asyncVM.builtins = builtinsCopy
+		// the block is part of the same request: it runs under the same step limit
+		asyncVM.maxSteps = stepLimit
 
 		// Execute the async body using raw instructions (no GLYP header)
 		result, execErr := asyncVM.executeRaw(asyncBody)
